@@ -4,7 +4,34 @@ Each matcher takes (case, message) and recognises the *class* of a known
 defect by call site and input shape, so that a different violation of the same
 property is still reported.
 """
+import re
 
 
 def never(case, msg):
     return False
+
+
+def float_regime_eq_hash(case, msg):
+    """F3: a pair of operands in *different* offsets of which at least one is
+    written in a fractional precision form (hour-only or hour:minute form, whose
+    re-zoning goes through float division): equal-but-unequal-hash, operators
+    that disagree with instants closer than 1 microsecond, incoherent operators,
+    or RecursionError in a - b."""
+    if not case.meta.get("fl"):
+        return False
+    line = case.lines[0]
+    if not line.startswith("pair "):
+        return False
+    if not ("hashes differ" in msg or "RecursionError" in msg or "INCOHERENT" in msg
+            or msg.startswith("float-regime comparison")):
+        return False
+    out = case.impl[0] if case.impl else ""
+    parts = [x.strip() for x in out.split(";")]
+    if len(parts) == 7:
+        ta, tb = parts[0].split(), parts[1].split()
+        if ta[-2:] == tb[-2:]:
+            return False      # same offset: not this class
+        forms = {t[{"C": 4, "O": 3, "W": 4}[t[0]]] for t in (ta, tb)}
+        if not (forms & {"H", "M"}):
+            return False      # both hh:mm:ss forms: not this class
+    return True
